@@ -5,10 +5,22 @@ Local Open Scope Z_scope.
 Local Arguments Z.add : simpl never.
 Local Arguments Z.sub : simpl never.
 
-(* ---- reachability: every schedule (list of decisions), every main flow, every answer list ---- *)
+(* well nested main flow: never more Unblock than Block in a prefix, counted from d blocks held *)
+Fixpoint bal (d : Z) (o : list op) : bool :=
+  match o with
+  | [] => true
+  | Block :: r => bal (d + 1) r
+  | Unblock _ :: r => (0 <? d) && bal (d - 1) r
+  end.
+
+(* ---- reachability: every schedule (list of decisions), every main flow, every answer list, every callback that takes
+   blocks itself; the main flow may re-plan at an operation boundary (reach_ops): whatever it does next must be well
+   nested relative to the blocks the application holds THEN - so it may release blocks that a callback took ---- *)
 Inductive reach (o : list op) (a : list bool) : st -> Prop :=
 | reach_init : reach o a (init o a)
-| reach_step s d : reach o a s -> reach o a (step true d s).
+| reach_step s d : reach o a s -> reach o a (step true d s)
+| reach_cbb s : reach o a s -> reach o a (cb_block s)    (* the running callback calls blockSignals() *)
+| reach_ops s o' : reach o a s -> stack s = [] -> mpc_ s = MOp -> bal (depth s) o' = true -> reach o a (set_ops s o').
 
 Definition exec (ds : list Z) (s : st) : st := fold_left (fun s d => step true d s) ds s.
 
@@ -18,24 +30,21 @@ Proof.
   apply IH. now constructor.
 Qed.
 
-(* well nested main flow: never more Unblock than Block in a prefix *)
-Fixpoint bal (d : Z) (o : list op) : bool :=
-  match o with
-  | [] => true
-  | Block :: r => bal (d + 1) r
-  | Unblock _ :: r => (0 <? d) && bal (d - 1) r
-  end.
-
 Definition active (f : hframe) : Z := match h_pc f with HInc => 0 | _ => 1 end.
 Fixpoint nactive (k : list hframe) : Z := match k with [] => 0 | f :: r => active f + nactive r end.
 
-(* b = blocked_ minus the activations above that are past their increment *)
-Fixpoint fr_ok (b : Z) (k : list hframe) : Prop :=
+(* the blocks a callback took are part of what blocked_ exceeds the entry value by: only the activation whose
+   increment returned 0 can have run the callback, and then every block the application holds (dp) is one its callback took *)
+Definition extra (dp : Z) (f : hframe) : Z :=
+  match h_pc f with HCbEnter => 0 | _ => if h_r f =? 0 then dp else 0 end.   (* about to enter the callback: it has not taken any yet *)
+
+(* b = blocked_ minus the activations above that are past their increment (and the blocks their callbacks took) *)
+Fixpoint fr_ok (b dp : Z) (k : list hframe) : Prop :=
   match k with
   | [] => True
   | f :: r => match h_pc f with
-              | HInc => fr_ok b r
-              | _ => h_r f + 1 = b /\ fr_ok (b - 1) r
+              | HInc => fr_ok b dp r
+              | _ => h_r f + 1 + extra dp f = b /\ fr_ok (b - 1 - extra dp f) dp r
               end
   end.
 
@@ -65,22 +74,22 @@ Definition def_stop (st : Z) (f : hframe) : Prop :=
 Record Inv (s : st) : Prop := mkInv {
   i_cnt  : blocked s = depth s + stops s + nactive (stack s);
   i_dep  : 0 <= depth s;
-  i_stp  : 0 <= stops s;
+  i_stp  : 0 <= stops s /\ 0 <= cbt s;
   i_bal  : bal (depth s) (ops s) = true;
-  i_mpc  : match mpc_ s with MOp => True | MTake _ => depth s = 0 | MClear _ _ _ => False end;
-  i_fr   : fr_ok (blocked s) (stack s);
+  i_mpc  : match mpc_ s with MOp => True | MTake _ => depth s <= cbt s | MClear _ _ _ => False end;
+  i_fr   : fr_ok (blocked s) (depth s) (stack s);
   i_br   : Forall (br_ok (fates s)) (stack s);
   i_def  : def_ok (stack s);
-  i_hd   : has_def (stack s) = true -> depth s = 0;
-  i_ds   : Forall (def_stop (stops s)) (stack s);
-  i_sig  : Forall (fun f => h_sig f <> 0) (stack s) }.
+  i_hd   : has_def (stack s) = true -> depth s <= cbt s;
+  i_ds   : Forall (def_stop (stops s + cbt s)) (stack s);
+  i_sig  : Forall (fun f => h_sig f <> 0 /\ 0 <= h_r f) (stack s) }.
 
 Lemma nactive_nonneg k : 0 <= nactive k.
 Proof. induction k as [|f r IH]; simpl; [lia|]. unfold active. destruct (h_pc f); lia. Qed.
 
-Lemma fr_ok_inactive k : nactive k = 0 -> forall b, fr_ok b k.
+Lemma fr_ok_inactive k : nactive k = 0 -> forall b dp, fr_ok b dp k.
 Proof.
-  induction k as [|f r IH]; simpl; intros H b; [exact I|].
+  induction k as [|f r IH]; simpl; intros H b dp; [exact I|].
   pose proof (nactive_nonneg r). unfold active in H.
   destruct (h_pc f); try lia. apply IH. lia.
 Qed.
@@ -105,6 +114,14 @@ Proof.
   constructor; simpl; auto.
   - constructor; [simpl; exact I|exact Hbr].
   - constructor; [unfold def_stop; simpl; discriminate|exact Hds].
+  - constructor; [simpl; split; [exact Hd|lia]|exact Hsig].
+Qed.
+
+Lemma bal_mono o : forall d, bal d o = true -> bal (d + 1) o = true.
+Proof.
+  induction o as [|[|dl] r IH]; simpl; intros d H; [reflexivity|apply IH; exact H|].
+  apply andb_true_iff in H. destruct H as [H1 H2]. apply Z.ltb_lt in H1. apply andb_true_iff. split; [apply Z.ltb_lt; lia|].
+  replace (d + 1 - 1) with (d - 1 + 1) by lia. apply IH. exact H2.
 Qed.
 
 Lemma inv_mstep s : stack s = [] -> Inv s -> Inv (mstep true s).
@@ -114,31 +131,36 @@ Proof.
   destruct (mpc_ s) as [|dl|dl p pid] eqn:Hmp; [| |contradiction].
   - destruct (ops s) as [|[|dl] o] eqn:Ho.
     + constructor; rewrite ?Hs, ?Hmp, ?Ho; simpl; auto.
-    + simpl in Hb. constructor; simpl; rewrite ?Hs; simpl; auto; try lia.
+    + simpl in Hb. constructor; simpl; rewrite ?Hs; simpl; auto; try lia; try discriminate.
     + simpl in Hb. apply andb_true_iff in Hb. destruct Hb as [Hb1 Hb2]. apply Z.ltb_lt in Hb1.
-      constructor; simpl; rewrite ?Hs; simpl; auto; try lia.
+      constructor; simpl; rewrite ?Hs; simpl; auto; try lia; try discriminate.
       destruct (Z.eqb_spec (blocked s) 1); [lia|exact I].
   - unfold take. destruct (Z.eqb_spec (pending s) 0) as [Hp|Hp]; [|destruct dl].
-    + constructor; simpl; rewrite ?Hs; simpl; auto.
+    + constructor; simpl; rewrite ?Hs; simpl; auto; try discriminate.
     + constructor; simpl; rewrite ?Hs; simpl; auto; try lia.
       all: try (constructor; [try exact I; unfold def_stop; simpl; auto|constructor]).
-      congruence.
-    + constructor; simpl; rewrite ?Hs; simpl; auto.
+      all: try (simpl; split; [congruence|lia]). all: try congruence.
+    + constructor; simpl; rewrite ?Hs; simpl; auto; try discriminate.
 Qed.
 
 
 Lemma has_def_tail f r : has_def r = true -> has_def (f :: r) = true.
 Proof. unfold has_def. simpl. intros ->. apply orb_true_r. Qed.
 
+Ltac frk :=
+  first [ apply fr_ok_inactive; lia
+        | match goal with H : fr_ok ?b ?d ?r |- fr_ok ?b' ?d ?r => replace b' with b by lia; exact H end ].
+
 Ltac fin :=
   repeat match goal with
   | |- Forall (br_ok _) (_ :: _) => constructor
   | |- Forall (def_stop _) (_ :: _) => constructor
+  | |- Forall (fun f => h_sig f <> 0 /\ _) (_ :: _) => constructor; [simpl|]
   | |- Forall (br_ok (_ :: _)) _ => apply Forall_br_mono
   | |- br_ok _ _ => unfold br_ok; simpl
   | |- def_stop _ _ => unfold def_stop; simpl
   | |- _ /\ _ => split
-  | |- fr_ok (?b + 1 - 1) _ => replace (b + 1 - 1) with b by lia
+  | |- fr_ok _ _ _ => frk
   | |- In ?x (?x :: _) => left; reflexivity
   | |- Forall (br_ok (if ?c then _ else _)) _ => destruct c
   end; auto; try lia; try (intro; contradiction).
@@ -148,41 +170,49 @@ Proof.
   intros Hs [Hc Hdp Hst Hb Hm Hf Hbr Hdef Hhd Hds Hsig].
   rewrite Hs in *. simpl in *.
   inversion Hbr as [|? ? Hbr1 Hbr2]; subst. inversion Hds as [|? ? Hds1 Hds2]; subst.
-  inversion Hsig as [|? ? Hsig1 Hsig2]; subst. destruct Hdef as [Hdef1 Hdef2].
+  inversion Hsig as [|? ? Hsig1 Hsig2]; subst. destruct Hdef as [Hdef1 Hdef2]. destruct Hsig1 as [Hsig1 Hsig1r].
+  pose proof (nactive_nonneg rest) as Hn.
   unfold hstep. unfold active in Hc. unfold br_ok in Hbr1. unfold def_stop in Hds1.
   destruct (h_pc f) eqn:Hpc.
   - (* HInc *)
     destruct (Z.eqb_spec (blocked s) 0) as [Hz|Hz].
-    + constructor; simpl; unfold active; simpl; fin.
-    + constructor; simpl; unfold active; simpl; fin.
-      intro Hd.
-      destruct rest as [|g rest']; [|specialize (Hdef1 ltac:(discriminate)); congruence].
-      rewrite Hd in Hhd. specialize (Hhd eq_refl). simpl in Hc. lia.
+    + constructor; simpl; unfold active, extra; simpl; rewrite ?Hz; simpl; fin.
+    + constructor; simpl; unfold active, extra; simpl; fin.
+      * destruct (Z.eqb_spec (blocked s) 0); [contradiction|]. lia.
+      * destruct (Z.eqb_spec (blocked s) 0); [contradiction|]. frk.
+      * intro Hd.
+        destruct rest as [|g rest']; [|specialize (Hdef1 ltac:(discriminate)); congruence].
+        rewrite Hd in Hhd. specialize (Hhd eq_refl). simpl in Hc. lia.
   - (* HCbEnter *)
-    destruct Hf as [Hf1 Hf2].
-    constructor; simpl; unfold active, set_pc; simpl; rewrite ?Hpc; fin.
+    destruct Hf as [Hf1 Hf2]. unfold extra in Hf1, Hf2. rewrite Hpc in Hf1, Hf2.
+    assert (Hd0 : depth s = 0) by lia.
+    constructor; simpl; unfold active, set_pc, extra; simpl; rewrite ?Hpc, ?Hbr1, ?Hd0 in *; simpl; fin.
   - (* HCbExit *)
-    destruct Hf as [Hf1 Hf2]. destruct Hbr1 as [Hr0 Hin].
+    destruct Hf as [Hf1 Hf2]. destruct Hbr1 as [Hr0 Hin]. unfold extra in Hf1, Hf2. rewrite Hpc, Hr0 in Hf1, Hf2. simpl in Hf1, Hf2.
     destruct (answers s) as [|[|] a] eqn:Ha.
-    + constructor; simpl; unfold active, set_pc; simpl; rewrite ?Hpc; fin.
-    + constructor; simpl; unfold active, set_pc; simpl; rewrite ?Hpc; fin.
+    + constructor; simpl; unfold active, set_pc, extra; simpl; rewrite ?Hpc, ?Hr0; simpl; fin.
+    + constructor; simpl; unfold active, set_pc, extra; simpl; rewrite ?Hpc, ?Hr0; simpl; fin.
     + (* stop *)
-      pose proof (nactive_nonneg rest) as Hn.
       constructor; simpl; fin.
-      * apply fr_ok_inactive. lia.
+      * intro Hd. apply Hhd. rewrite Hd. apply orb_true_r.
       * eapply Forall_impl; [|exact Hds2]. intros g. apply def_stop_mono. lia.
   - (* HTest *)
-    destruct Hf as [Hf1 Hf2].
+    destruct Hf as [Hf1 Hf2]. unfold extra in Hf1, Hf2. rewrite Hpc in Hf1, Hf2.
+    destruct (h_r f =? 0) eqn:E0; [apply Z.eqb_eq in E0; contradiction|].
     destruct (Z.eqb_spec (pending s) 0) as [Hp|Hp].
-    + constructor; simpl; unfold active, set_pc; simpl; rewrite ?Hpc; fin.
-    + constructor; simpl; unfold active, set_pc; simpl; rewrite ?Hpc; fin.
+    + constructor; simpl; unfold active, set_pc, extra; simpl; rewrite ?Hpc, ?E0; fin.
+    + constructor; simpl; unfold active, set_pc, extra; simpl; rewrite ?Hpc, ?E0; fin.
   - (* HWrite *)
-    destruct Hf as [Hf1 Hf2].
-    constructor; simpl; unfold active, set_pc; simpl; rewrite ?Hpc; fin.
+    destruct Hf as [Hf1 Hf2]. unfold extra in Hf1, Hf2. rewrite Hpc in Hf1, Hf2.
+    destruct (h_r f =? 0) eqn:E0; [apply Z.eqb_eq in E0; contradiction|].
+    constructor; simpl; unfold active, set_pc, extra; simpl; rewrite ?Hpc, ?E0; fin.
   - (* HDec *)
-    destruct Hf as [Hf1 Hf2].
-    constructor; simpl; fin.
-    intro Hd. apply Hhd. rewrite Hd. apply orb_true_r.
+    destruct Hf as [Hf1 Hf2]. unfold extra in Hf1, Hf2. rewrite Hpc in Hf1, Hf2.
+    destruct (Z.eqb_spec (h_r f) 0) as [Hr0|Hr0].
+    + constructor; simpl; fin.
+      intro Hd. apply Hhd. rewrite Hd. apply orb_true_r.
+    + constructor; simpl; fin.
+      intro Hd. apply Hhd. rewrite Hd. apply orb_true_r.
 Qed.
 
 Theorem inv_step d s : Inv s -> Inv (step true d s).
@@ -194,7 +224,30 @@ Proof.
   - apply inv_arrive; assumption.
 Qed.
 
+(* the running callback takes a block *)
+Lemma inv_cbb s : Inv s -> Inv (cb_block s).
+Proof.
+  intros HI. unfold cb_block. destruct (stack s) as [|f rest] eqn:Hs; [exact HI|].
+  destruct (h_pc f) eqn:Hpc; try exact HI.
+  destruct HI as [Hc Hdp Hst Hb Hm Hf Hbr Hdef Hhd Hds Hsig].
+  rewrite Hs in *. simpl in *. rewrite Hpc in Hf.
+  inversion Hbr as [|? ? Hbr1 Hbr2]; subst. unfold br_ok in Hbr1. rewrite Hpc in Hbr1. destruct Hbr1 as [Hr0 Hin].
+  destruct Hf as [Hf1 Hf2]. unfold extra in Hf1, Hf2. rewrite Hpc, Hr0 in Hf1, Hf2. simpl in Hf1, Hf2.
+  pose proof (nactive_nonneg rest) as Hn. unfold active in Hc. rewrite Hpc in Hc.
+  constructor; simpl; rewrite ?Hs; simpl; unfold active, extra; rewrite ?Hpc, ?Hr0; simpl; auto; try lia.
+  - apply bal_mono. exact Hb.
+  - destruct (mpc_ s); auto; lia.
+  - split; [lia|]. apply fr_ok_inactive. lia.
+  - intro H. specialize (Hhd H). lia.
+  - eapply Forall_impl; [|exact Hds]. intros g. apply def_stop_mono. lia.
+Qed.
+
+(* the main flow re-plans *)
+Lemma inv_ops s o' : Inv s -> bal (depth s) o' = true -> Inv (set_ops s o').
+Proof. intros [Hc Hdp Hst Hb Hm Hf Hbr Hdef Hhd Hds Hsig] H. constructor; simpl; auto. Qed.
+
 Theorem reach_inv o a s : bal 0 o = true -> reach o a s -> Inv s.
 Proof.
-  intros Hb Hr. induction Hr as [|s d Hr IH]; [apply inv_init; exact Hb|apply inv_step; exact IH].
+  intros Hb Hr. induction Hr as [|s d Hr IH|s Hr IH|s o' Hr IH Hs Hm Ho];
+    [apply inv_init; exact Hb|apply inv_step; exact IH|apply inv_cbb; exact IH|apply inv_ops; assumption].
 Qed.
